@@ -30,11 +30,11 @@ Mechs == <<
   (* rendered_payload: same template, rendered from another request                                       *)
   [m |-> "remote_authorizer", policy |-> <<"expressions", "expressions_error">>,
    inputs |-> <<"ep_url", "ep_method", "ep_headers", "id", "fwd_headers", "payload", "ttl", "subject_id", "subject_attr", "values", "rendered_payload", "ep_auth", "ep_apikey", "ep_httpsig", "ep_header_lc", "ep_apikey_cookie", "ep_apikey_query">>,
-   shifts |-> <<"ep_headers.k|v", "id|fwd_headers", "fwd_headers|payload", "values.k|v", "ep_auth.k|v", "ep_apikey.k|v", "ep_httpsig.k|v">>, hdr |-> TRUE, val |-> TRUE, hdrdef |-> 0],
+   shifts |-> <<"ep_headers.k|v", "id|fwd_headers", "fwd_headers|payload", "values.k|v", "values.v|k", "ep_auth.k|v", "ep_apikey.k|v", "ep_httpsig.k|v">>, hdr |-> TRUE, val |-> TRUE, hdrdef |-> 0],
   [m |-> "generic_contextualizer", policy |-> <<>>,
    (* fwd_header_value / fwd_cookie_value: the value of a request header / cookie the mechanism forwards to the endpoint *)
    inputs |-> <<"ep_url", "ep_method", "ep_headers", "id", "fwd_headers", "fwd_cookies", "payload", "ttl", "subject_id", "subject_attr", "values", "rendered_payload", "ep_auth", "ep_apikey", "ep_httpsig", "ep_header_lc", "ep_apikey_cookie", "ep_apikey_query", "fwd_header_value", "fwd_cookie_value">>,
-   shifts |-> <<"ep_headers.k|v", "fwd_headers|fwd_cookies", "fwd_cookies|payload", "values.k|v", "ep_auth.k|v", "ep_apikey.k|v", "ep_httpsig.k|v", "fwd_header_value|fwd_cookie_value">>, hdr |-> TRUE, val |-> TRUE, hdrdef |-> 0],
+   shifts |-> <<"ep_headers.k|v", "fwd_headers|fwd_cookies", "fwd_cookies|payload", "values.k|v", "values.v|k", "ep_auth.k|v", "ep_apikey.k|v", "ep_httpsig.k|v", "fwd_header_value|fwd_cookie_value">>, hdr |-> TRUE, val |-> TRUE, hdrdef |-> 0],
   [m |-> "generic_authenticator", policy |-> <<"session_lifespan">>,
    inputs |-> <<"ep_url", "ep_headers", "credential", "payload", "ep_auth", "ep_apikey", "ep_header_lc", "ep_apikey_cookie", "ep_apikey_query", "fwd_header_value", "fwd_cookie_value">>,
    shifts |-> <<"ep_headers.k|v", "ep_auth.k|v", "ep_apikey.k|v", "fwd_header_value|fwd_cookie_value">>, hdr |-> TRUE, val |-> FALSE, hdrdef |-> 0],
@@ -73,7 +73,7 @@ Zeros(n) == [i \in 1..n |-> 0]
 Straddles(mc, sh) ==
   {i \in 1..Len(mc.inputs) :
      \/ \E j \in 1..Len(mc.inputs) : sh = mc.inputs[i] \o "|" \o mc.inputs[j] \/ sh = mc.inputs[j] \o "|" \o mc.inputs[i]
-     \/ sh = mc.inputs[i] \o ".k|v" \/ sh = mc.inputs[i] \o ".a|b"}
+     \/ sh = mc.inputs[i] \o ".k|v" \/ sh = mc.inputs[i] \o ".a|b" \/ sh = mc.inputs[i] \o ".v|k"}
 
 Pair(mc, rel, comp, nh, nv, p2, in2) ==
   [mech |-> mc.m, rel |-> rel, comp |-> comp, nh |-> nh, nv |-> nv,
